@@ -13,7 +13,7 @@ ASSUMPTIONS = [
     "a CrossHair condition with symbolic occupations for SamplingResult was tried and dropped: not confirmable within 100 s (hash(str) of symbolic lists forces realisation of every occupation)",
 ]
 BOUNDS = {
-    "quick": "1-2 inputs x 1-4 outputs drawn from occupations 0..3 on 2 modes (and 0..2 on 3 modes), both mappings x both invert values, second application of any mapping; SamplingResult with <=4 states",
+    "quick": "1-2 inputs x 1-4 outputs drawn from occupations 0..3 on 2 modes (and 0..2 on 3 modes, and the zero-mode state), both mappings x both invert values, second application of any mapping; SamplingResult with <=4 states",
     "thorough": "adds all 4-subsets of the 2-mode occupation grid with occupations 0..2",
 }
 OUTSIDE = "duplicate states inside inputs/outputs (dict semantics); plotting and dataframe display; complex values in probability-typed results (the library stores them in a float array)"
@@ -24,6 +24,7 @@ SETS = [
     [(0, 0)], [(2, 3)], [(1, 0), (2, 0)], [(1, 1), (3, 1), (1, 3)], [(0, 1), (0, 2), (0, 3), (1, 0)],
     [(2, 2), (0, 0), (1, 1), (3, 3)], [(1, 2), (2, 1), (3, 0), (0, 3)], [(0, 2), (2, 0), (2, 2), (0, 0)],
     [(1, 0, 2), (3, 0, 0), (1, 2, 2), (0, 1, 0)],
+    [()],  # the zero-mode state (output of a circuit whose modes are all heralded)
 ]
 
 
@@ -47,7 +48,11 @@ def _check_result(ctx, res, inputs, outs, vals, label):
         for j, ost in enumerate(res.outputs):
             want = vals[i][tuple(ost.s)]
             ctx.check_eq(res.array[i, j], want, label + ":array-follows-own-output-order")
-            ctx.check_eq(res[ist, ost], want, label + ":pair-index")
+            got = res[ist, ost]
+            if isinstance(got, dict):
+                ctx.fail(label + ":pair-index", "pair indexing returned a mapping instead of the value")
+            else:
+                ctx.check_eq(got, want, label + ":pair-index")
             ctx.check_eq(res[ist][ost], want, label + ":nested-index")
             ctx.check_eq(res[(ist,)][ost], want, label + ":one-tuple-index")
 
@@ -149,7 +154,7 @@ def h_sampling(ctx, outset, kind, invert):
     ctx.check(m.input == inp, "sampling:input-kept")
     for o in outs:
         ctx.check_eq(res[lw.State(list(o))], vals[o], "sampling:original-untouched")
-    for bad, exc in (([1, 0], TypeError), (lw.State([9] * len(outs[0])), KeyError)):
+    for bad, exc in (([1, 0], TypeError), (lw.State([9] * (len(outs[0]) + 1)), KeyError)):
         try:
             res[bad]
         except exc:
@@ -164,11 +169,11 @@ def harnesses(tier):
     if tier != "quick":
         grid = [(a, b) for a in range(3) for b in range(3)]
         extra = [list(c) for c in itertools.combinations(grid, 4)]
-        SETS = SETS[:9] + extra
+        SETS = SETS[:10] + extra
         sets = list(range(len(SETS)))
     sim = [dict(n_in=n, outset=s, kind=k, invert=i) for n in (1, 2) for s in sets for k in ("threshold", "parity") for i in (False, True)]
     if tier != "quick":
-        sim = [c for c in sim if c["n_in"] == 2 or c["outset"] < 9]
+        sim = [c for c in sim if c["n_in"] == 2 or c["outset"] < 10]
     samp = [dict(outset=s, kind=k, invert=i) for s in sets for k in ("threshold", "parity") for i in (False, True)]
     return [
         ("simulation-result", h_simresult, sim),
